@@ -273,10 +273,33 @@ def _shared_table():
         "SplineInterpolatedCurve": (lambda a: cb.SplineInterpolatedCurve(a), lambda e: np.array(e.discretize(count=9)), 5),
         "Face": (lambda a: cb.Face(a), face_pts, 4),
         "FaceSpline": (lambda a: cb.Face(a[:4], [cb.Spline(a[4:6]), None, None, cb.PolyLine(a[6:8])]), lambda e: np.vstack([e.point_array, e.edges[0].curve.discretize(), e.edges[3].curve.discretize()]), 8),
+        # entities whose geometry is read from a fresh assembly (vertex order may legitimately change under mirror:
+        # only "the array and the twin stay put" is compared, the affine relation is the main table's subject)
+        "LineCurve": (lambda a: cb.LineCurve(a[0], a[1]), lambda e: np.array(e.discretize(count=5)), 2),
+        "CircleCurve": (lambda a: cb.CircleCurve(a[0], a[1], a[2] - a[0], (0, 3.0)), lambda e: np.array(e.discretize(count=7)), 3, "no-affine"),
+        "MappedSketch": (lambda a: cb.MappedSketch(a, [[0, 1, 2, 3], [1, 4, 5, 2]]), lambda e: np.vstack([f.point_array for f in e.faces]), 6, "no-affine"),
+        "Grid": (lambda a: cb.Grid(a[0], a[2], 2, 1), lambda e: np.vstack([f.point_array for f in e.faces]), 3, "no-affine"),
+        "OneCoreDisk": (lambda a: cb.OneCoreDisk(a[0], a[1], np.cross(a[1] - a[0], a[3] - a[0])), lambda e: np.vstack([f.point_array for f in e.faces]), 4, "no-affine"),
+        "Box": (lambda a: cb.Box(a[0], a[2] + np.array([0, 0, 1.0])), _assembled_points, 3, "no-affine"),
+        "Loft": (lambda a: cb.Loft(cb.Face(a[:4]), cb.Face(a[4:8] + np.array([0, 0, 1.0]))), _assembled_points, 8, "no-affine"),
+        "LoftSharedViews": (lambda a: cb.Loft(cb.Face(a[:4]), cb.Face(a[0:4]).translate([0, 0, 1.0])), _assembled_points, 4, "no-affine"),
+        "Extrude": (lambda a: cb.Extrude(cb.Face(a[:4]), a[4] + np.array([0, 0, 1.0])), _assembled_points, 5, "no-affine"),
+        "Revolve": (lambda a: cb.Revolve(cb.Face(a[:4] + np.array([0, 1.0, 0])), 0.7, a[1] - a[0], a[0]), _assembled_points, 4, "no-affine"),
+        "Cylinder": (lambda a: cb.Cylinder(a[0], a[0] + np.cross(a[1] - a[0], a[3] - a[0]), a[1]), _assembled_points, 4, "no-affine"),
     }
 
 
 SHARED_INPUT = ["Point", "Arc", "Origin", "Spline", "PolyLine", "DiscreteCurve", "LinearInterpolatedCurve", "SplineInterpolatedCurve", "Face", "FaceSpline"]
+SHARED_INPUT += ["LineCurve", "CircleCurve", "MappedSketch", "Grid", "OneCoreDisk", "Box", "Loft", "LoftSharedViews", "Extrude", "Revolve", "Cylinder"]
+
+
+def _assembled_points(entity):
+    import classy_blocks as cb
+
+    mesh = cb.Mesh()
+    mesh.add(entity)
+    mesh.assemble()
+    return np.array([v.position for v in mesh.vertices])
 _SHARED_ROWS = np.array(
     [[0.0, 0.0, 0.0], [1.0, 0.1, 0.0], [1.1, 1.0, 0.2], [0.1, 0.9, 0.1], [0.3, -0.2, 0.05], [0.7, -0.15, 0.1], [0.0, 0.6, 0.2], [-0.1, 0.3, 0.15]]
 )
@@ -286,7 +309,9 @@ def run_shared_input(case):
     """two entities built from ONE float64 array of the user's: transforming one of them (every transformation, every
     ordered pair) leaves the array and the other entity alone and moves the first by the affine map"""
     violations = []
-    make, geom, rows = _shared_table()[case["entity"]]
+    entry = _shared_table()[case["entity"]]
+    make, geom, rows = entry[:3]
+    check_affine = len(entry) == 3
     tnames = list(TRANSFORMS)
     execs = 0
     for seqn in [(t,) for t in tnames] + list(itertools.product(tnames, repeat=2)):
@@ -314,7 +339,7 @@ def run_shared_input(case):
                 violations.append({"clause": "transformation-modifies-users-array", "coords": coords, "detail": f"the array given to the constructor changed by up to {np.abs(base - a0).max():.3g}"})
             elif np.abs(h2 - g2).max() > 1e-12:
                 violations.append({"clause": "transformation-moves-another-entity", "coords": coords, "detail": f"a second entity built from the same array moved by {np.abs(h2 - g2).max():.3g}"})
-            elif h1.shape != g1.shape or np.abs(h1 - (g1 @ L.T + b)).max() > TOL:
+            elif check_affine and (h1.shape != g1.shape or np.abs(h1 - (g1 @ L.T + b)).max() > TOL):
                 violations.append({"clause": "points", "coords": coords, "detail": f"off by {np.abs(h1 - (g1 @ L.T + b)).max():.3g}"})
     return {"violations": violations, "outcome": "shared_input", "execs": execs, "states": 1, "transitions": execs, "nontrivial": True}
 
@@ -571,6 +596,28 @@ def run_case(case):
                     diff = [k for k in ("vertices", "blocks", "edges", "faces", "boundary", "geometry") if d1.get(k) != d2.get(k)]
                     if diff:
                         bad("copy-writes-different-mesh", f"sections {diff}")
+                # independence of everything that is declared on an entity, both ways: what is declared on one of the
+                # two after copying must not show in the file the other one writes
+                for first, label in (("copy", "declarations-on-copy-leak-into-original"), ("original", "declarations-on-original-leak-into-copy")):
+                    e3 = make()
+                    chop_all(e3)
+                    c3 = e3.copy()
+                    target, other = (c3, e3) if first == "copy" else (e3, c3)
+                    before = canon_text(write_text(other))
+                    tops = [target] if not hasattr(target, "operations") else list(target.operations)
+                    tops[0].set_patch("top", "only_here")
+                    tops[-1].set_patch(["left", "front"], "only_here_2")
+                    tops[0].set_cell_zone("only_here_zone")
+                    tops[0].project_side("bottom", "only_here_geo", edges=True, points=True)
+                    tops[-1].project_corner(6, "only_here_geo")
+                    tops[0].project_edge(1, 5, "only_here_geo")
+                    tops[0].chop(0, count=7)
+                    tops[0].translate([0.01, 0.0, 0.0])
+                    after = canon_text(write_text(other))
+                    if before != after:
+                        d1, d2 = foamdict.parse(before), foamdict.parse(after)
+                        diff = [k for k in ("vertices", "blocks", "edges", "faces", "boundary", "geometry") if d1.get(k) != d2.get(k)]
+                        bad("copy-not-independent:" + label, f"sections {diff} of the other entity's file changed")
                 d2 = foamdict.parse(write_text(c2))
                 used = {lab for v in d2["vertices"] for lab in v["project"]} | {lab for ed in d2["edges"] if ed["kind"] == "project" for lab in ed["labels"]} | {fa["label"] for fa in d2["faces"]}
                 undefined = sorted(used - set(d2["geometry"]) - {"terrain"})
